@@ -5,8 +5,8 @@ CONSTANTS
   NodeChain = 1
   Locs <- L2
   Fields <- FAll
-  QiCases <- QiC
-  QiSignSets <- QiS
+  QiCases <- QiCq
+  QiSignSets <- QiSq
   Modes <- MBoth
   MaxOps = 4
 VIEW view
